@@ -361,7 +361,9 @@ class TaggedSeries(object):
   @classmethod
   def parse(cls, path):
     # if path is in openmetrics format: metric{tag="value",...}
-    if path[-2:] == '"}' and '{' in path:
+    # (';' separates carbon tags and is not allowed in any tag value, so a path containing one is
+    # carbon syntax whose last tag value merely happens to end in '"}')
+    if path[-2:] == '"}' and '{' in path and ';' not in path:
       return cls.parse_openmetrics(path)
 
     # path is a carbon path with optional tags: metric;tag=value;...
